@@ -30,7 +30,21 @@ import ast
 import os
 import sys
 
-PKG = "/repo/okdmr/dmrlib"
+def _find_pkg():
+    """the okdmr.dmrlib the interpreter would import (editable install -> /repo's working tree); not imported"""
+    try:
+        import importlib.util
+
+        spec = importlib.util.find_spec("okdmr.dmrlib")
+        locs = list(spec.submodule_search_locations or []) if spec else []
+        if locs and os.path.isdir(locs[0]):
+            return locs[0]
+    except Exception:  # pragma: no cover
+        pass
+    return "/repo/okdmr/dmrlib"
+
+
+PKG = _find_pkg()
 EXCLUDE_DIRS = {"tests", "tools", "__pycache__"}
 
 IMMUTABLE_CALLS = {
